@@ -204,7 +204,7 @@ def main():
         if len(outs) == 3 and "ok" in outs[0] and "ok" not in outs[2]:
             ck.violation("AddFact with a %d byte id was acknowledged on %s storage (%s state) but the fact is gone after reload: %s" % (
                 len(c["ops"][0]["id"]), c["storage"], c["state"], canon(outs[2])[:150]),
-                {"case": {kk: (v if kk != "ops" else [dict(op, id="k*%d" % len(op["id"])) for op in v]) for kk, v in c.items()}, "impl": [outs[0].get("err"), outs[2].get("err")]}, tag="limits")
+                {"case": {kk: (v if kk != "ops" else [dict(op, id="k*%d" % len(op["id"])) if "id" in op else op for op in v]) for kk, v in c.items()}, "impl": [outs[0].get("err"), outs[2].get("err")]}, tag="limits")
     lr.stats["backend_limit_cases"] = len(dcases)
     for c in casesA[:1] + fcases[:1] + ccases[:1]:
         ck.sample({k: (v if k != "ops" else v[:6]) for k, v in c.items()})
